@@ -2,4 +2,5 @@ SPECIFICATION Spec
 CONSTANTS MaxLines = 3
           Shapes <- ShapesFull
           Endings <- EndingsAll
+          Policies <- UniformPolicies
 INVARIANTS Statement
